@@ -20,7 +20,13 @@ PROP = {'level': 'proof',
          'cutting characters apart; 3- and 4-byte chars as char/str needles; the inputs that failed before '
          '116b24e first (aaab/aab, aaabaab/aab, abbb/abb); then 3000 (20000) seeded random haystacks up to '
          '200 letters with planted needles and near misses. Reverse searches with an empty pattern are '
-         'tagged out of scope.',
+         'tagged out of scope. A second seeded stream of LARGE cases (240 / 2 400 cases, ~3 900 / 39 000 '
+         'requests): haystacks of 20..=200 letters over {a,b}, {a,b,c,d}, all 256 byte values (byte-slice '
+         'functions only), {a, n-tilde, euro, emoji} and random scalar values; needles of 5..=24 letters, '
+         'random or periodic (unit of 1..3 letters repeated, optionally with a different last/first letter), '
+         'planted 0..=3 times (very start, very end, anywhere, overlapping the previous copy by a multiple '
+         'of the period) into a random or periodic filler, near misses at the ends, needles longer than the '
+         'haystack; one-character needles (char kind) in long strings; array patterns up to [u8; 24].',
  'explanation': 'Theorems (Props/C04.lean) state model = least/greatest-offset specification for all inputs; '
                 'the transcript ties the model to the code (impl vs model) and the specification to the real '
                 'std (spec vs oracle); pattern normalisation (str/char/[u8]/[u8;N] -> bytes) is covered by '
